@@ -1101,3 +1101,273 @@ class sp_reshape(Contract):
         yield "rows-pairwise-distinct(witness)", T.ForAll(
             [i, j], z3.Implies(rng(i, j), z3.And(0 <= col(i, j), col(i, j) < Kk + Ln,
                                                  T.tz(subs.fn(i, col(i, j))) != T.tz(subs.fn(j, col(i, j))))), [[ra(i), ra(j)]])
+
+
+def _value_callback(S):
+    """A caller-supplied value function: returns an array of the requested shape with arbitrary real entries
+    (precondition on the callback; recorded as an assumption)."""
+    def fh(it, shape):
+        S.ctx.trusted.add("callback contract: function_handle(shape) returns a real array of exactly the requested shape")
+        shp = N._shape_arg(S.ctx, shape)
+        return Arr.fresh("fvals", shp, "real")
+    fh._pyvc_native = True
+    return fh
+
+
+@register
+class sp_from_function(Contract):
+    qual = Q + "from_function"
+    props = ("C20", "C06")
+    doc = (
+        "sptensor.from_function(f, shape, nonzeros) for every random stream: nonzeros outside [0, prod(shape)] is "
+        "rejected; the result has the requested shape, at most the requested number of stored entries (fraction < 1: "
+        "ceil(fraction * prod(shape))), pairwise distinct subscripts inside the shape (np.unique of floor(u * extent)), "
+        "and its values are f((nnz, 1)).  ('exactly the requested number' is not provable: the generator gives up after "
+        "ten redraws; see KNOWN_FINDINGS.)"
+    )
+    inline = INLINE_CTOR
+
+    @staticmethod
+    def _loop_inv(S, a, env, i):
+        """Redraw loop: `subs` is always a matrix of pairwise distinct subscripts inside the shape."""
+        subs = env["subs"]
+        if not (isinstance(subs, Arr) and subs.ndim == 2):
+            return False
+        Nn = a["shape"].shape[0]
+        srow = N.seq_as_row(S.ctx, a["shape"])
+        rf = N.ensure_rows(S.ctx, subs)
+        k, l = z3.Int("ffl!k"), z3.Int("ffl!l")
+        m = subs.shape[0]
+        return S.And(
+            S.eq(subs.shape[1], Nn), T.ge(m, 0), T.ge(env["cnt"], 0),
+            T.ForAll([k], z3.Implies(z3.And(0 <= k, T.tz(k < m)), N.INRNG(srow, rf(k))), [rf(k)]),
+            T.ForAll([k, l], z3.Implies(z3.And(0 <= k, k < l, T.tz(l < m)), rf(k) != rf(l))),
+        )
+
+    @staticmethod
+    def _loop_havoc(S, a, env, name):
+        if name == "cnt":
+            return T.fresh_int("cnt")
+        r = N.fresh_row_matrix("redraw", S.nat("redraw_rows"), a["shape"].shape[0])
+        S.assume(N.row_matrix_wf(r))
+        return r
+
+    loops = {0: dict(modifies=["subs", "cnt"], inv=lambda S, a, env, i: sp_from_function._loop_inv(S, a, env, i),
+                     havoc=lambda S, a, env, name: sp_from_function._loop_havoc(S, a, env, name))}
+
+    def case_names(self):
+        return ["count", "fraction"]
+
+    def setup(self, S, case):
+        Nn = S.int("N", 1)
+        shape = S.vector("shape", Nn, "int", kind="tuple")
+        S.assume(S.forall(0, Nn, lambda q: shape.fn(q) >= 1, pats=lambda q: [shape.fn(q)]))
+        for ax in N.mixed_radix_axioms():
+            S.ctx.assume(ax)
+        if case == "count":
+            nz = S.int("nonzeros")
+        else:
+            nz = S.real("fraction")
+            S.assume(z3.And(nz > 0, nz < 1))
+        from pyvc.interp import ClassRef
+        return dict(cls=ClassRef("sptensor"), function_handle=_value_callback(S), shape=shape, nonzeros=nz, __case__=case)
+
+    @staticmethod
+    def _identify_rows(S, srow):
+        # the body builds its own row for parse_shape(shape): ground extensionality instances
+        for p in S.ctx.ghosts.get("row", []):
+            if p is not srow:
+                S.ctx.assume(N.row_ext(srow, p))
+                S.ctx.assume(N.row_ext(p, srow))
+
+    def raises_when(self, S, a):
+        srow = N.seq_as_row(S.ctx, a["shape"])
+        self._identify_rows(S, srow)
+        nz = T.tz(a["nonzeros"])
+        P = N.PRODR(srow)
+        yield "count-out-of-range", z3.Or(nz < 0, nz > (P if T.sort_of(nz) == "int" else z3.ToReal(P)))
+
+    def ensures(self, S, a, ret):
+        shape_in = a["shape"]
+        Nn = shape_in.shape[0]
+        srow = N.seq_as_row(S.ctx, shape_in)
+        self._identify_rows(S, srow)
+        yield "returns-sptensor", _is_sptensor(ret)
+        subs, vals, shape = result_parts(ret)
+        slen, sat = seq_view(shape)
+        q = z3.Int("ff!q")
+        yield "requested-shape", S.And(S.eq(slen, Nn), T.ForAll([q], z3.Implies(z3.And(0 <= q, q < Nn), sat(q) == T.tz(shape_in.fn(q)))))
+        for item in wf_clauses(S, ret, srow, Nn):
+            yield item
+        m = subs.shape[0]
+        nz = T.tz(a["nonzeros"])
+        if T.sort_of(nz) == "int":
+            yield "at-most-the-requested-count", T.tz(T.le(m, nz))
+        else:
+            P = z3.ToReal(N.PRODR(srow))
+            yield "at-most-the-requested-count-or-ceil(fraction*size)", z3.If(nz < 1, z3.ToReal(T.tz(m)) < nz * P + 1, z3.ToReal(T.tz(m)) <= nz)
+
+
+class _FromFunctionCallSite:
+    """call-site part of the from_function contract (used by sptenrand)."""
+
+
+def _ff_fresh_result(self, S, a):
+    shape = a["shape"]
+    if not isinstance(shape, Arr):
+        raise PathAbort("from_function call site: shape is not a symbolic tuple")
+    Nn = shape.shape[0]
+    m = S.nat("ff_nnz")
+    subs = N.fresh_row_matrix("ff_subs", m, Nn)
+    S.assume(N.row_matrix_wf(subs))
+    vals = Arr.fresh("ff_vals", (m, 1), "real")
+    return Rec("sptensor", dict(subs=subs, vals=vals, shape=shape))
+
+
+def _ff_bind_case(a):
+    if "__case__" not in a:
+        nz = a["nonzeros"]
+        a["__case__"] = "count" if T.sort_of(nz) == "int" else "real"
+    return a
+
+
+sp_from_function.fresh_result = _ff_fresh_result
+
+
+@register
+class sp_sptenrand(Contract):
+    qual = "pyttb.sptensor.sptenrand"
+    props = ("C20",)
+    doc = (
+        "sptenrand(shape, density | nonzeros) for every random stream: exactly one of density / nonzeros must be given "
+        "and density must lie in (0, 1] (else raises); the result is a well-formed sptensor of the requested shape with "
+        "at most the requested number (nonzeros) resp. ceil(density * prod(shape)) (density < 1) resp. prod(shape) "
+        "(density = 1) of pairwise distinct subscripts."
+    )
+    inline = ("pyttb.pyttb_utils.parse_shape",)
+
+    def case_names(self):
+        return ["nonzeros", "density<1", "density=1", "neither", "both"]
+
+    def setup(self, S, case):
+        Nn = S.int("N", 1)
+        shape = S.vector("shape", Nn, "int", kind="tuple")
+        S.assume(S.forall(0, Nn, lambda q: shape.fn(q) >= 1, pats=lambda q: [shape.fn(q)]))
+        for ax in N.mixed_radix_axioms():
+            S.ctx.assume(ax)
+        a = dict(shape=shape, __case__=case)
+        if case == "nonzeros":
+            a["nonzeros"] = S.int("nonzeros")
+        elif case == "density<1":
+            d = S.real("density")
+            a["density"] = d
+        elif case == "density=1":
+            a["density"] = 1.0
+        elif case == "both":
+            a["density"] = S.real("density")
+            a["nonzeros"] = S.int("nonzeros")
+        return a
+
+    def raises_when(self, S, a):
+        c = a["__case__"]
+        if c in ("neither", "both"):
+            yield "exactly-one-of-density-and-nonzeros", True
+        if c == "density<1":
+            d = a["density"]
+            yield "density-outside-(0,1]", z3.Or(d <= 0, d > 1)
+        if c == "nonzeros":
+            srow = N.seq_as_row(S.ctx, a["shape"])
+            sp_from_function._identify_rows(S, srow)
+            yield "count-out-of-range", z3.Or(a["nonzeros"] < 0, a["nonzeros"] > N.PRODR(srow))
+
+    def ensures(self, S, a, ret):
+        shape_in = a["shape"]
+        Nn = shape_in.shape[0]
+        srow = N.seq_as_row(S.ctx, shape_in)
+        sp_from_function._identify_rows(S, srow)
+        yield "returns-sptensor", _is_sptensor(ret)
+        subs, vals, shape = result_parts(ret)
+        slen, sat = seq_view(shape)
+        q = z3.Int("sr!q")
+        yield "requested-shape", S.And(S.eq(slen, Nn), T.ForAll([q], z3.Implies(z3.And(0 <= q, q < Nn), sat(q) == T.tz(shape_in.fn(q)))))
+        for item in wf_clauses(S, ret, srow, Nn):
+            yield item
+        m = T.tz(subs.shape[0])
+        P = N.PRODR(srow)
+        c = a["__case__"]
+        if c == "nonzeros":
+            yield "at-most-the-requested-count", m <= a["nonzeros"]
+        elif c == "density=1":
+            yield "at-most-all-cells", m <= P
+        else:
+            yield "at-most-ceil(density*size)", z3.ToReal(m) < a["density"] * z3.ToReal(P) + 1
+
+
+@register
+class sp_sptendiag(Contract):
+    qual = "pyttb.sptensor.sptendiag"
+    props = ("C20", "C06")
+    doc = (
+        "sptendiag(elements[, shape]): with n = len(elements) the result has shape (n,)*n, or max(n, dim) per requested "
+        "dim; every stored subscript is a diagonal subscript (i, ..., i) with i < n and holds elements[i] != 0; every i "
+        "with elements[i] != 0 is stored; the result is well-formed (distinct subscripts inside the shape)."
+    )
+    inline = ("pyttb.pyttb_utils.parse_shape", "pyttb.pyttb_utils.parse_one_d")
+
+    def case_names(self):
+        return ["default-shape", "given-shape"]
+
+    def setup(self, S, case):
+        n = S.int("n", 1)
+        elements = S.vector("elements", n, "real")
+        a = dict(elements=elements, __case__=case)
+        if case == "given-shape":
+            L = S.int("L", 1)
+            shape = S.vector("shape", L, "int", kind="tuple")
+            S.assume(S.forall(0, L, lambda q: shape.fn(q) >= 1, pats=lambda q: [shape.fn(q)]))
+            a["shape"] = shape
+        for ax in N.mixed_radix_axioms():
+            S.ctx.assume(ax)
+        return a
+
+    def ensures(self, S, a, ret):
+        el = a["elements"]
+        n = el.shape[0]
+        yield "returns-sptensor", _is_sptensor(ret)
+        subs, vals, shape = result_parts(ret)
+        slen, sat = seq_view(shape)
+        q, t, c, i = z3.Int("sd!q"), z3.Int("sd!t"), z3.Int("sd!c"), z3.Int("sd!i")
+        if a["__case__"] == "default-shape":
+            L = n
+            yield "shape-is-(n,)*n", S.And(S.eq(slen, n), T.ForAll([q], z3.Implies(z3.And(0 <= q, q < n), sat(q) == n)))
+        else:
+            sh = a["shape"]
+            L = sh.shape[0]
+            yield "shape-is-max(n,dim)", S.And(S.eq(slen, L), T.ForAll([q], z3.Implies(z3.And(0 <= q, q < L), sat(q) == z3.If(T.tz(sh.fn(q)) > n, T.tz(sh.fn(q)), n))))
+        srow = N.seq_as_row(S.ctx, shape)
+        for item in wf_clauses(S, ret, srow, L):
+            yield item
+        m = subs.shape[0]
+        rf = N.ensure_rows(S.ctx, subs)
+        d = lambda t_: N.relem(rf(t_), 0)
+        yield "stored-subscripts-are-diagonal-and-hold-their-element", T.ForAll(
+            [t], z3.Implies(z3.And(0 <= t, T.tz(t < m)), z3.And(
+                0 <= d(t), d(t) < n, T.tz(T.as_real(vals.fn(t, 0))) == T.tz(el.fn(d(t))), T.tz(el.fn(d(t))) != 0,
+                T.ForAll([c], z3.Implies(z3.And(0 <= c, c < L), N.relem(rf(t), c) == d(t))))), [rf(t)])
+        pos = getattr(ret, "ghost", {}).get("pos")
+        ca = S.body_ghosts.get("callargs:from_aggregator")
+        if pos is None or not ca:
+            raise PathAbort("sptendiag contract: no call-site ghost of from_aggregator")
+        gval = ret.ghost["gval"]
+        rin = N.ensure_rows(S.ctx, ca[-1]["subs"])
+        k1, k2 = z3.Int("sd!k1"), z3.Int("sd!k2")
+        yield "lemma:aggregated-rows-are-the-diagonal-subscripts", T.ForAll(
+            [k1, c], z3.Implies(z3.And(0 <= k1, k1 < n, 0 <= c, c < L), N.relem(rin(k1), c) == k1), [N.relem(rin(k1), c)]), "lemma"
+        yield "lemma:aggregated-rows-pairwise-distinct", T.ForAll(
+            [k1, k2], z3.Implies(z3.And(0 <= k1, k1 < n, 0 <= k2, k2 < n, k1 != k2), rin(k1) != rin(k2)), [[rin(k1), rin(k2)]]), "lemma"
+        yield "lemma:each-group-is-one-element", T.ForAll(
+            [k1], z3.Implies(z3.And(0 <= k1, k1 < n), gval(k1) == T.tz(el.fn(k1))), [rin(k1)]), "lemma"
+        yield "every-nonzero-element-is-stored-on-the-diagonal", T.ForAll(
+            [i], z3.Implies(z3.And(0 <= i, i < n, T.tz(el.fn(i)) != 0), z3.And(
+                0 <= pos(i), T.tz(pos(i) < m), T.tz(T.as_real(vals.fn(pos(i), 0))) == T.tz(el.fn(i)),
+                T.ForAll([c], z3.Implies(z3.And(0 <= c, c < L), N.relem(rf(pos(i)), c) == i)))), [el.fn(i)])
